@@ -841,12 +841,53 @@ def special_cases_4(acc):
                 f'process keeps is {own}, it was {before}', case))
 
 
+def special_cases_5(acc):
+    """(g) composites built from configuration dictionaries WITHOUT a
+    'state' entry; a state is merged into one of them: the others - built
+    before or after - still answer initial_state() with their processes'
+    own values, and so does a store generated from them."""
+    leaf = shapes.leaf
+
+    def mk():
+        return Composite({
+            'processes': {'p': probes.Probe({
+                'pid': 'p', 'log_states': False,
+                'schema': {'port': {'a': leaf(1), 'b': leaf(2)}},
+                'init': {'port': {'a': 10}}})},
+            'topology': {'p': {'port': ('pool',)}}})
+    for when in ('before', 'after'):
+        case = {'special': 'composites-share-state', 'other_built': when}
+        acc.case(key=('special', 'share-state', when), outcome='special')
+        try:
+            other = mk() if when == 'before' else None
+            one = mk()
+            one.merge(state={'pool': {'a': 99, 'b': 98}})
+            if other is None:
+                other = mk()
+            got = other.initial_state()
+            tree = probes.pure(other.generate_store().get_value())
+            built = {'a': tree['pool']['a'], 'b': tree['pool']['b']}
+        except Exception as e:  # noqa
+            acc.violate(fw.violation(
+                'C15.crash', f'share-state:{type(e).__name__}',
+                f'{case}: {e!r}', case))
+            continue
+        if got != {'pool': {'a': 10}} or built != {'a': 10, 'b': 2}:
+            acc.violate(fw.violation(
+                'C15.composite', 'state-of-another-composite',
+                f'a state was merged into ONE composite; another one '
+                f'(built {when}) answers initial_state() = {got} and '
+                f'builds pool = {built}; expected {{pool: {{a: 10}}}} and '
+                f'{{a: 10, b: 2}}', case))
+
+
 def run_job(job, acc):
     if job[0] == 'special':
         special_cases(acc)
         special_cases_2(acc)
         special_cases_3(acc)
         special_cases_4(acc)
+        special_cases_5(acc)
         return
     if job[0] == 'conflicts':
         conflict_cases(acc)
@@ -880,6 +921,7 @@ def replay(case):
         special_cases_2(acc)
         special_cases_3(acc)
         special_cases_4(acc)
+        special_cases_5(acc)
     elif 'conflict' in case:
         conflict_cases(acc)
     elif 'composite_state' in case:
@@ -895,3 +937,6 @@ RULE += (
 
 RULE += (
     ' Route engine+undeclared: the explicit initial state also names keys that NO process declares, listed before the declared ones - declared variables still get their explicit value and glob children are still created. Conflicts between dictionary- and array-valued declarations (different keys / shapes) must raise.')
+
+RULE += (
+    ' (g) composites built from configuration dictionaries without a state entry do not share one: a state merged into one of them is not answered by another (built before or after).')
